@@ -261,7 +261,7 @@ def mon_c11(v):
         if len(ds) > 1: out.append(V("C11", f"operation {op} completed {len(ds)} times", ds[1][0]))
         if op not in issued: out.append(V("C11", f"completion for unknown operation {op}", ds[0][0]))
     # after the closing cancel+close every operation has completed exactly once
-    closed = any(line == "close" or line.endswith(" +cc") for line, _, _, _ in v.tr)
+    closed = any(line == "close" or line.endswith((" +cc", " +ccb")) for line, _, _, _ in v.tr)
     if closed and not v.crash:
         for op, (kind, i) in issued.items():
             if op not in done: out.append(V("C11", f"{kind} {op} never completed although the stream was cancelled and closed", i))
@@ -360,7 +360,14 @@ def mon_c05(v):
     out = []
     closed_at = None
     for i, (line, evs, st, t) in enumerate(v.tr):
-        if line == "close" or line.endswith(" +cc"): closed_at = i
+        if line == "close" or line.endswith((" +cc", " +ccb")): closed_at = i
+        if line.endswith(" +ccb"):
+            # cancel() ran before the completion handler of the socket operation: the stream operation above it ends with operation_aborted,
+            # whatever the socket operation's own result was
+            for e in evs:
+                w = e.split()
+                if w[0] in ("rdone", "wdone", "sdone") and w[2] != "aborted":
+                    out.append(V("C05", f"{w[0]} {w[1]} completed with `{w[2]}` although cancel() + close() had run before its completion handler", i))
         elif line == "open": closed_at = None
         elif closed_at is not None and st.get("open") == "1":
             out.append(V("C05", f"the stream is open again at line {i} although the client was cancelled and closed at line {closed_at} and open() was not called (a late connection attempt installed its socket)", i))
